@@ -298,7 +298,6 @@ def scrip_dataset(m, rng, force=None):
             # of the neighbouring corner of the cell, so the same pole appears with different longitudes in different cells
             for j in range(len(f)):
                 if abs(clat[i, j]) == 90.0:
-                    clon[i, j:] = np.where(np.arange(j, w) < len(f), clon[i, j:], clon[i, j:])
                     clon[i, j] = clon[i, (j + 1) % len(f)] if abs(clat[i, (j + 1) % len(f)]) != 90.0 else clon[i, j - 1]
             for j in range(len(f), w):  # keep the padding a repeat of the last corner
                 clon[i, j] = clon[i, len(f) - 1]
